@@ -1,9 +1,532 @@
-From Coq Require Import ZArith List Bool String.
+(* C18 -- proofs about the resolution of contextual arguments (Model/Context.v vs Spec/Context.v). *)
+From Coq Require Import ZArith List Bool String Lia.
 Require Import Rig.Model.Base Rig.Generated.GenSignatures Rig.Generated.GenCtxGeometry Rig.Model.Context Rig.Spec.Context.
 Import ListNotations.
 Open Scope string_scope.
 Open Scope list_scope.
 Open Scope Z_scope.
+
+(* ------------------------------------------------------------------ dictionaries *)
+Lemma eqb_sym_s : forall a b, String.eqb a b = String.eqb b a.
+Proof. intros. apply String.eqb_sym. Qed.
+
+Lemma sassoc_supdate : forall {A} k k' (v : A) l,
+  sassoc k (supdate k' v l) = if String.eqb k k' then Some v else sassoc k l.
+Proof.
+  intros A k k' v l. induction l as [|[k0 v0] l IH]; simpl.
+  - destruct (String.eqb_spec k k'); reflexivity.
+  - destruct (String.eqb_spec k' k0) as [E|NE]; simpl.
+    + subst k0. destruct (String.eqb_spec k k'); reflexivity.
+    + destruct (String.eqb_spec k k0) as [E2|NE2].
+      * subst k0. destruct (String.eqb_spec k k') as [E3|_]; [subst; congruence|reflexivity].
+      * exact IH.
+Qed.
+
+Lemma smem_supdate : forall {A} k k' (v : A) l,
+  smem k (supdate k' v l) = String.eqb k k' || smem k l.
+Proof.
+  intros. unfold smem. rewrite sassoc_supdate. destruct (String.eqb k k'); reflexivity.
+Qed.
+
+Lemma sassoc_supdate_all : forall {A} k (pairs d : list (string * A)),
+  sassoc k (supdate_all pairs d) = match slast k pairs with Some v => Some v | None => sassoc k d end.
+Proof.
+  intros A k pairs. unfold supdate_all.
+  induction pairs as [|[k0 v0] r IH]; intros d; simpl.
+  - reflexivity.
+  - rewrite IH. destruct (slast k r); [reflexivity|].
+    rewrite sassoc_supdate. destruct (String.eqb k k0); reflexivity.
+Qed.
+
+Lemma sassoc_merge_from : forall k (s : stack) (acc : ctx),
+  sassoc k (fold_left (fun cargs c => supdate_all c cargs) s acc)
+  = match stack_lookup k s with Some v => Some v | None => sassoc k acc end.
+Proof.
+  intros k s. induction s as [|c r IH]; intros acc; simpl.
+  - reflexivity.
+  - rewrite IH. destruct (stack_lookup k r); [reflexivity|].
+    apply sassoc_supdate_all.
+Qed.
+
+(* get_context_arguments yields, for every name, the value of the innermost context that sets it *)
+Lemma sassoc_merge_stack : forall k s, sassoc k (merge_stack s) = stack_lookup k s.
+Proof.
+  intros. unfold merge_stack. rewrite sassoc_merge_from. destruct (stack_lookup k s); reflexivity.
+Qed.
+
+Lemma in_keys_supdate : forall {A} k k' (v : A) l,
+  In k (map fst (supdate k' v l)) -> k = k' \/ In k (map fst l).
+Proof.
+  intros A k k' v l. induction l as [|[k0 v0] l IH]; simpl.
+  - intros [H|[]]; auto.
+  - destruct (String.eqb_spec k' k0) as [E|NE]; simpl.
+    + intros [H|H]; auto.
+    + intros [H|H]; auto. destruct (IH H); auto.
+Qed.
+
+Lemma nodup_keys_supdate : forall {A} k (v : A) l,
+  NoDup (map fst l) -> NoDup (map fst (supdate k v l)).
+Proof.
+  intros A k v l. induction l as [|[k0 v0] l IH]; simpl; intros H.
+  - constructor; [intros []|constructor].
+  - inversion H as [|? ? Hn Hd]; subst.
+    destruct (String.eqb_spec k k0) as [E|NE]; simpl.
+    + subst. constructor; assumption.
+    + constructor; [|apply IH; assumption].
+      intros Hin. apply in_keys_supdate in Hin. destruct Hin as [E|Hin]; [congruence|contradiction].
+Qed.
+
+Lemma nodup_keys_supdate_all : forall {A} (pairs d : list (string * A)),
+  NoDup (map fst d) -> NoDup (map fst (supdate_all pairs d)).
+Proof.
+  intros A pairs. unfold supdate_all. induction pairs as [|[k v] r IH]; intros d H; simpl.
+  - exact H.
+  - apply IH. apply nodup_keys_supdate. exact H.
+Qed.
+
+Lemma nodup_keys_merge : forall s, NoDup (map fst (merge_stack s)).
+Proof.
+  intros s. unfold merge_stack.
+  assert (G : forall acc, NoDup (map fst acc) ->
+              NoDup (map fst (fold_left (fun cargs c => supdate_all c cargs) s acc))).
+  { induction s as [|c r IH]; intros acc H; simpl; [exact H|].
+    apply IH. apply nodup_keys_supdate_all. exact H. }
+  apply G. constructor.
+Qed.
+
+Lemma sassoc_none_notin : forall {A} k (l : list (string * A)), sassoc k l = None -> ~ In k (map fst l).
+Proof.
+  intros A k l. induction l as [|[k0 v0] l IH]; simpl; intros H; [tauto|].
+  destruct (String.eqb_spec k k0); [discriminate|].
+  intros [E|Hin]; [congruence|]. exact (IH H Hin).
+Qed.
+
+Lemma notin_sassoc_none : forall {A} k (l : list (string * A)), ~ In k (map fst l) -> sassoc k l = None.
+Proof.
+  intros A k l. induction l as [|[k0 v0] l IH]; simpl; intros H; [reflexivity|].
+  destruct (String.eqb_spec k k0); [subst; tauto|]. apply IH. tauto.
+Qed.
+
+Lemma slast_none_notin : forall {A} k (l : list (string * A)), slast k l = None -> ~ In k (map fst l).
+Proof.
+  intros A k l. induction l as [|[k0 v0] l IH]; simpl; intros H; [tauto|].
+  destruct (slast k l); [discriminate|].
+  destruct (String.eqb_spec k k0); [discriminate|].
+  intros [E|Hin]; [congruence|]. exact (IH eq_refl Hin).
+Qed.
+
+Lemma slast_nodup : forall {A} k (l : list (string * A)), NoDup (map fst l) -> slast k l = sassoc k l.
+Proof.
+  intros A k l. induction l as [|[k0 v0] l IH]; simpl; intros H; [reflexivity|].
+  inversion H as [|? ? Hn Hd]; subst. rewrite (IH Hd).
+  destruct (String.eqb_spec k k0) as [E|NE].
+  - subst. rewrite (notin_sassoc_none _ _ Hn). reflexivity.
+  - destruct (sassoc k l); reflexivity.
+Qed.
+
+Lemma sassoc_in : forall {A} k (v : A) l, sassoc k l = Some v -> In (k, v) l.
+Proof.
+  intros A k v l. induction l as [|[k0 v0] l IH]; simpl; intros H; [discriminate|].
+  destruct (String.eqb_spec k k0); [inversion H; subst; auto|auto].
+Qed.
+
+(* the context overlay of the wrapper: only names still open are overwritten *)
+Definition overlay (cx : list (string * value)) (a0 : list (string * default)) :=
+  fold_left (fun a kv => if smem (fst kv) a then supdate (fst kv) (DVal (snd kv)) a else a) cx a0.
+
+Lemma overlay_keys : forall cx a0, map fst (overlay cx a0) = map fst a0.
+Proof.
+  unfold overlay. induction cx as [|[k v] r IH]; intros a0; simpl; [reflexivity|].
+  rewrite IH. destruct (smem k a0) eqn:E; [|reflexivity].
+  clear IH. induction a0 as [|[k0 d0] a0 IHa]; simpl.
+  - unfold smem in E. simpl in E. discriminate.
+  - destruct (String.eqb_spec k k0) as [E2|NE]; simpl; [subst; reflexivity|].
+    f_equal. apply IHa. unfold smem in *. simpl in E.
+    destruct (String.eqb_spec k k0); [congruence|exact E].
+Qed.
+
+Lemma smem_keys : forall {A B} k (l : list (string * A)) (l' : list (string * B)),
+  map fst l = map fst l' -> smem k l = smem k l'.
+Proof.
+  intros A B k l. unfold smem. induction l as [|[k0 v0] l IH]; intros [|[k1 v1] l'] H; simpl in *;
+    try discriminate; [reflexivity|].
+  inversion H; subst. destruct (String.eqb k k1); [reflexivity|]. apply IH. assumption.
+Qed.
+
+Lemma sassoc_overlay : forall k cx a0,
+  sassoc k (overlay cx a0)
+  = if smem k a0 then match slast k cx with Some v => Some (DVal v) | None => sassoc k a0 end else None.
+Proof.
+  intros k cx. unfold overlay. induction cx as [|[k1 v1] r IH]; intros a0; simpl.
+  - unfold smem. destruct (sassoc k a0); reflexivity.
+  - rewrite IH. destruct (smem k1 a0) eqn:E1.
+    + rewrite smem_supdate. destruct (String.eqb_spec k k1) as [E|NE]; simpl.
+      * subst k1. rewrite E1. rewrite sassoc_supdate, String.eqb_refl.
+        destruct (slast k r); reflexivity.
+      * rewrite sassoc_supdate. destruct (String.eqb_spec k k1); [congruence|].
+        destruct (slast k r); reflexivity.
+    + destruct (String.eqb_spec k k1) as [E|NE].
+      * subst k1. rewrite E1. reflexivity.
+      * destruct (slast k r); reflexivity.
+Qed.
+
+(* ------------------------------------------------------------------ lists of parameters *)
+Lemma name_in_iff : forall k l, name_in k l = true <-> In k l.
+Proof.
+  intros k l. unfold name_in. rewrite existsb_exists. split.
+  - intros [x [Hin E]]. apply String.eqb_eq in E. subst. exact Hin.
+  - intros H. exists k. split; [exact H|apply String.eqb_refl].
+Qed.
+
+Lemma smem_iff : forall {A} k (l : list (string * A)), smem k l = true <-> In k (map fst l).
+Proof.
+  intros A k l. unfold smem. split.
+  - destruct (sassoc k l) eqn:E; [|discriminate]. intros _.
+    apply sassoc_in in E. apply in_map_iff. exists (k, a). auto.
+  - intros H. destruct (sassoc k l) eqn:E; [reflexivity|].
+    exfalso. exact (sassoc_none_notin _ _ E H).
+Qed.
+
+Lemma index_of_some : forall n l i, index_of n l = Some i -> nth_error l i = Some n.
+Proof.
+  intros n l. induction l as [|k r IH]; simpl; intros i H; [discriminate|].
+  destruct (String.eqb_spec n k).
+  - inversion H; subst. reflexivity.
+  - destruct (index_of n r) eqn:E; [|discriminate]. inversion H; subst. simpl. apply IH. reflexivity.
+Qed.
+
+Lemma index_of_none : forall n l, index_of n l = None -> ~ In n l.
+Proof.
+  intros n l. induction l as [|k r IH]; simpl; intros H; [tauto|].
+  destruct (String.eqb_spec n k); [discriminate|].
+  destruct (index_of n r); [discriminate|]. intros [E|Hin]; [congruence|]. exact (IH eq_refl Hin).
+Qed.
+
+(* positional binding: combine names pos *)
+Lemma sassoc_combine : forall (names : list string) (pos : list value) n,
+  sassoc n (combine names pos)
+  = match index_of n names with Some i => nth_error pos i | None => None end
+    \/ (exists i, index_of n names = Some i /\ False).
+Proof. intros. left.
+  revert pos. induction names as [|k r IH]; intros pos; simpl; [reflexivity|].
+  destruct pos as [|v pos]; simpl.
+  - destruct (String.eqb n k); [reflexivity|]. destruct (index_of n r); reflexivity.
+  - destruct (String.eqb_spec n k); [reflexivity|].
+    rewrite IH. destruct (index_of n r); reflexivity.
+Qed.
+
+Lemma sassoc_combine' : forall (names : list string) (pos : list value) n,
+  sassoc n (combine names pos) = match index_of n names with Some i => nth_error pos i | None => None end.
+Proof. intros. destruct (sassoc_combine names pos n) as [H|[i [_ []]]]. exact H. Qed.
+
+Lemma sassoc_skipn_params : forall (ps : list (string * default)) k n i,
+  NoDup (map fst ps) -> index_of n (map fst ps) = Some i -> (k <= i)%nat ->
+  sassoc n (skipn k ps) = sassoc n ps.
+Proof.
+  intros ps. induction ps as [|[p d] r IH]; intros k n i Hnd Hi Hk; simpl in *.
+  - destruct k; reflexivity.
+  - destruct k as [|k]; [reflexivity|]. simpl.
+    inversion Hnd as [|? ? Hn Hd]; subst.
+    destruct (String.eqb_spec n p) as [E|NE].
+    + inversion Hi; subst. lia.
+    + destruct (index_of n (map fst r)) eqn:E2; [|discriminate]. inversion Hi; subst.
+      apply (IH k n n0); auto. lia.
+Qed.
+
+Lemma sassoc_skipn_small : forall (ps : list (string * default)) k n i,
+  NoDup (map fst ps) -> index_of n (map fst ps) = Some i -> (i < k)%nat ->
+  sassoc n (skipn k ps) = None.
+Proof.
+  intros ps. induction ps as [|[p d] r IH]; intros k n i Hnd Hi Hk; simpl in *.
+  - discriminate.
+  - destruct k as [|k]; [lia|]. simpl.
+    inversion Hnd as [|? ? Hn Hd]; subst.
+    destruct (String.eqb_spec n p) as [E|NE].
+    + subst. apply notin_sassoc_none. intros Hin. apply Hn.
+      clear -Hin. revert k Hin. induction r as [|a r IHr]; intros k Hin; destruct k; simpl in *; auto.
+      right. eapply IHr. exact Hin.
+    + destruct (index_of n (map fst r)) eqn:E2; [|discriminate]. inversion Hi; subst.
+      apply (IH k n n0); auto. lia.
+Qed.
+
+Lemma sassoc_skipn_notparam : forall (ps : list (string * default)) k n,
+  index_of n (map fst ps) = None -> sassoc n (skipn k ps) = None.
+Proof.
+  intros ps k n H. apply index_of_none in H. apply notin_sassoc_none. intros Hin. apply H.
+  clear -Hin. revert k Hin. induction ps as [|a r IH]; intros k Hin; destruct k; simpl in *; auto.
+  right. eapply IH. exact Hin.
+Qed.
+
+Lemma index_of_in : forall n l, In n l -> exists i, index_of n l = Some i.
+Proof.
+  intros n l. induction l as [|k r IH]; simpl; intros H; [tauto|].
+  destruct (String.eqb_spec n k); [eauto|].
+  destruct H as [E|H]; [congruence|]. destruct (IH H) as [i Hi]. rewrite Hi. eauto.
+Qed.
+
+Lemma index_of_lt : forall n l i, index_of n l = Some i -> (i < List.length l)%nat.
+Proof.
+  intros n l i H. apply index_of_some in H. apply nth_error_Some. congruence.
+Qed.
+
+(* ------------------------------------------------------------------ new_kwargs, name by name *)
+Definition open_default (sg : msig) (npos : nat) (n : string) : option default :=
+  match slast n (sg_kwonly sg) with
+  | Some d => Some d
+  | None => sassoc n (skipn npos (sg_params sg))
+  end.
+
+Lemma sassoc_map_dval : forall k (kw : list (string * value)),
+  slast k (map (fun kv => (fst kv, DVal (snd kv))) kw)
+  = match slast k kw with Some v => Some (DVal v) | None => None end.
+Proof.
+  intros k kw. induction kw as [|[k0 v0] r IH]; simpl; [reflexivity|].
+  rewrite IH. destruct (slast k r); [reflexivity|]. destruct (String.eqb k k0); reflexivity.
+Qed.
+
+Lemma new_kwargs_lookup : forall sg s npos kw n,
+  sassoc n (new_kwargs sg s npos kw)
+  = match slast n kw with
+    | Some v => Some (DVal v)
+    | None => match open_default sg npos n with
+              | None => None
+              | Some d => match stack_lookup n s with Some v => Some (DVal v) | None => Some d end
+              end
+    end.
+Proof.
+  intros sg s npos kw n. unfold new_kwargs.
+  rewrite sassoc_supdate_all, sassoc_map_dval.
+  destruct (slast n kw); [reflexivity|].
+  fold (overlay (merge_stack s) (supdate_all (sg_kwonly sg) (skipn npos (sg_params sg)))).
+  rewrite sassoc_overlay.
+  rewrite (slast_nodup _ _ (nodup_keys_merge s)), sassoc_merge_stack.
+  unfold smem. rewrite sassoc_supdate_all. fold (open_default sg npos n).
+  destruct (open_default sg npos n); [|reflexivity].
+  destruct (stack_lookup n s); reflexivity.
+Qed.
+
+Lemma strip_lookup : forall nk n,
+  existsb (fun kd => is_required (snd kd)) nk = false ->
+  sassoc n (strip nk) = match sassoc n nk with Some (DVal v) => Some v | _ => None end.
+Proof.
+  intros nk n. induction nk as [|[k d] r IH]; simpl; intros H; [reflexivity|].
+  apply orb_false_iff in H. destruct H as [H1 H2]. destruct d; [discriminate|]. simpl.
+  destruct (String.eqb n k); [reflexivity|]. apply IH. exact H2.
+Qed.
+
+Lemma strip_keys : forall nk,
+  existsb (fun kd => is_required (snd kd)) nk = false -> map fst (strip nk) = map fst nk.
+Proof.
+  induction nk as [|[k d] r IH]; simpl; intros H; [reflexivity|].
+  apply orb_false_iff in H. destruct H as [H1 H2]. destruct d; [discriminate|]. simpl. f_equal. auto.
+Qed.
+
+Lemma required_found : forall nk n,
+  sassoc n nk = Some DRequired -> existsb (fun kd => is_required (snd kd)) nk = true.
+Proof.
+  intros nk n H. apply sassoc_in in H. apply existsb_exists. exists (n, DRequired). auto.
+Qed.
+
+Lemma sassoc_app : forall {A} k (l1 l2 : list (string * A)),
+  sassoc k (l1 ++ l2) = match sassoc k l1 with Some v => Some v | None => sassoc k l2 end.
+Proof.
+  intros A k l1 l2. induction l1 as [|[k0 v0] r IH]; simpl; [reflexivity|].
+  destruct (String.eqb k k0); [reflexivity|exact IH].
+Qed.
+
+(* ------------------------------------------------------------------ resolve_precedence *)
+Lemma open_default_is_arg : forall sg npos n d, open_default sg npos n = Some d -> is_arg sg n = true.
+Proof.
+  intros sg npos n d H. unfold open_default in H. unfold is_arg. apply orb_true_iff.
+  destruct (slast n (sg_kwonly sg)) eqn:E.
+  - right. apply name_in_iff. destruct (in_dec string_dec n (map fst (sg_kwonly sg))) as [Hin|Hn]; [exact Hin|].
+    exfalso. assert (slast n (sg_kwonly sg) = None); [|congruence].
+    clear -Hn. induction (sg_kwonly sg) as [|[k v] r IH]; simpl in *; [reflexivity|].
+    rewrite IH by tauto. destruct (String.eqb_spec n k); [subst; tauto|reflexivity].
+  - left. apply name_in_iff. apply sassoc_in in H.
+    assert (In (n, d) (sg_params sg)).
+    { clear -H. revert H. generalize (sg_params sg). induction npos; intros l H; [exact H|].
+      destruct l; [destruct H|]. right. apply IHnpos. exact H. }
+    apply in_map_iff. exists (n, d). auto.
+Qed.
+
+Lemma open_default_default_of : forall sg npos n d i,
+  sig_wf sg -> open_default sg npos n = Some d ->
+  (index_of n (map fst (sg_params sg)) = Some i -> (npos <= i)%nat) ->
+  default_of sg n = Some d.
+Proof.
+  intros sg npos n d i Hwf H Hi. unfold open_default in H. unfold default_of.
+  destruct (slast n (sg_kwonly sg)); [exact H|].
+  destruct (index_of n (map fst (sg_params sg))) eqn:E.
+  - rewrite <- H. symmetry. eapply sassoc_skipn_params; eauto.
+    destruct (Nat.le_gt_cases npos n0); [assumption|].
+    rewrite (sassoc_skipn_small _ npos n n0 Hwf E) in H by lia. discriminate.
+  - rewrite sassoc_skipn_notparam in H by assumption. discriminate.
+Qed.
+
+Theorem resolve_precedence : forall sg s pos kw e,
+  sig_wf sg -> resolve sg s pos kw = Some e ->
+  forall n v, sassoc n (e_args e) = Some v -> spec_value sg s pos kw n = Some (DVal v).
+Proof.
+  intros sg s pos kw e Hwf Hres n v Hn.
+  unfold resolve in Hres.
+  set (nk := new_kwargs sg s (List.length pos) kw) in *.
+  destruct (existsb (fun kd => is_required (snd kd)) nk) eqn:Hreq; [discriminate|].
+  unfold bind_call in Hres.
+  set (names := map fst (sg_params sg)) in *.
+  destruct ((List.length names <? List.length pos)%nat && negb (sg_varargs sg)); [discriminate|].
+  destruct (existsb (fun kv => smem (fst kv) (combine names pos)) (strip nk)) eqn:Hmult; [discriminate|].
+  destruct (negb (sg_varkw sg) && existsb (fun kv => negb (name_in (fst kv) names)) (strip nk)); [discriminate|].
+  destruct (negb (forallb (fun n0 => smem n0 (combine names pos) || smem n0 (strip nk)) names)); [discriminate|].
+  inversion Hres; subst e; clear Hres. simpl in Hn.
+  rewrite sassoc_app in Hn. rewrite sassoc_combine' in Hn.
+  unfold spec_value, explicit_value. fold names.
+  destruct (index_of n names) as [i|] eqn:Hidx.
+  - destruct (nth_error pos i) as [vp|] eqn:Hnth.
+    + (* bound positionally: a keyword for the same name would have been "multiple values" *)
+      inversion Hn; subst vp.
+      destruct (slast n kw) as [vk|] eqn:Hkw; [|reflexivity].
+      exfalso.
+      assert (Hs : sassoc n (strip nk) = Some vk).
+      { rewrite strip_lookup by assumption. unfold nk. rewrite new_kwargs_lookup, Hkw. reflexivity. }
+      apply sassoc_in in Hs.
+      assert (existsb (fun kv => smem (fst kv) (combine names pos)) (strip nk) = true); [|congruence].
+      apply existsb_exists. exists (n, vk). split; [assumption|]. simpl.
+      unfold smem. rewrite sassoc_combine', Hidx, Hnth. reflexivity.
+    + rewrite strip_lookup in Hn by assumption. unfold nk in Hn. rewrite new_kwargs_lookup in Hn.
+      destruct (slast n kw) as [vk|]; [inversion Hn; reflexivity|].
+      destruct (open_default sg (List.length pos) n) as [d|] eqn:Hod; [|discriminate].
+      unfold ctx_or_default. rewrite (open_default_is_arg _ _ _ _ Hod).
+      destruct (stack_lookup n s) as [vc|]; [inversion Hn; reflexivity|].
+      destruct d as [|vd]; [discriminate|]. inversion Hn; subst vd.
+      apply (open_default_default_of sg (List.length pos) n (DVal v) i Hwf Hod).
+      intros _. apply nth_error_None. exact Hnth.
+  - rewrite strip_lookup in Hn by assumption. unfold nk in Hn. rewrite new_kwargs_lookup in Hn.
+    destruct (slast n kw) as [vk|]; [inversion Hn; reflexivity|].
+    destruct (open_default sg (List.length pos) n) as [d|] eqn:Hod; [|discriminate].
+    unfold ctx_or_default. rewrite (open_default_is_arg _ _ _ _ Hod).
+    destruct (stack_lookup n s) as [vc|]; [inversion Hn; reflexivity|].
+    destruct d as [|vd]; [discriminate|]. inversion Hn; subst vd.
+    apply (open_default_default_of sg (List.length pos) n (DVal v) O Hwf Hod).
+    intros Hi. fold names in Hi. rewrite Hidx in Hi. discriminate.
+Qed.
+
+(* every argument of the method has a value once the call is accepted *)
+Theorem resolve_total : forall sg s pos kw e,
+  sig_wf sg -> resolve sg s pos kw = Some e ->
+  forall n, is_arg sg n = true -> exists v, sassoc n (e_args e) = Some v.
+Proof.
+  intros sg s pos kw e Hwf Hres n Harg.
+  unfold resolve in Hres.
+  set (nk := new_kwargs sg s (List.length pos) kw) in *.
+  destruct (existsb (fun kd => is_required (snd kd)) nk) eqn:Hreq; [discriminate|].
+  unfold bind_call in Hres.
+  set (names := map fst (sg_params sg)) in *.
+  destruct ((List.length names <? List.length pos)%nat && negb (sg_varargs sg)); [discriminate|].
+  destruct (existsb (fun kv => smem (fst kv) (combine names pos)) (strip nk)); [discriminate|].
+  destruct (negb (sg_varkw sg) && existsb (fun kv => negb (name_in (fst kv) names)) (strip nk)); [discriminate|].
+  destruct (forallb (fun n0 => smem n0 (combine names pos) || smem n0 (strip nk)) names) eqn:Hall;
+    [|discriminate].
+  inversion Hres; subst e; clear Hres. simpl.
+  assert (G : smem n (combine names pos ++ strip nk) = true).
+  { apply smem_iff. rewrite map_app. apply in_or_app.
+    unfold is_arg in Harg. apply orb_true_iff in Harg. destruct Harg as [Hp|Hk].
+    - apply name_in_iff in Hp. rewrite forallb_forall in Hall. specialize (Hall n Hp).
+      apply orb_true_iff in Hall. destruct Hall as [H|H]; apply smem_iff in H; auto.
+    - right. rewrite strip_keys by assumption. apply smem_iff.
+      unfold smem. unfold nk. rewrite new_kwargs_lookup.
+      destruct (slast n kw); [reflexivity|].
+      assert (Hod : exists d, open_default sg (List.length pos) n = Some d).
+      { unfold open_default. apply name_in_iff in Hk.
+        destruct (slast n (sg_kwonly sg)) eqn:E; [eauto|].
+        exfalso. exact (slast_none_notin _ _ E Hk). }
+      destruct Hod as [d Hod]. rewrite Hod. destruct (stack_lookup n s); reflexivity. }
+  unfold smem in G. destruct (sassoc n (combine names pos ++ strip nk)); [eauto|discriminate].
+Qed.
+
+(* ------------------------------------------------------------------ required_rejected_before_send *)
+Lemma spec_required_new_kwargs : forall sg s pos kw n,
+  sig_wf sg -> spec_value sg s pos kw n = Some DRequired ->
+  sassoc n (new_kwargs sg s (List.length pos) kw) = Some DRequired.
+Proof.
+  intros sg s pos kw n Hwf H. unfold spec_value, explicit_value in H.
+  rewrite new_kwargs_lookup.
+  destruct (slast n kw); [discriminate|].
+  unfold ctx_or_default in H.
+  destruct (is_arg sg n) eqn:Harg; [|destruct (index_of n (map fst (sg_params sg))); [destruct (nth_error pos n0)|]; discriminate].
+  assert (Hopen : forall i, index_of n (map fst (sg_params sg)) = Some i -> nth_error pos i = None ->
+                  open_default sg (List.length pos) n = default_of sg n).
+  { intros i Hi Hnth. unfold open_default, default_of.
+    destruct (slast n (sg_kwonly sg)); [reflexivity|].
+    eapply sassoc_skipn_params; eauto. apply nth_error_None. exact Hnth. }
+  destruct (index_of n (map fst (sg_params sg))) as [i|] eqn:Hidx.
+  - destruct (nth_error pos i) eqn:Hnth; [discriminate|].
+    rewrite (Hopen i eq_refl Hnth).
+    destruct (stack_lookup n s); [discriminate|].
+    rewrite H. reflexivity.
+  - assert (Hopen2 : open_default sg (List.length pos) n = default_of sg n).
+    { unfold open_default, default_of. destruct (slast n (sg_kwonly sg)); [reflexivity|].
+      rewrite sassoc_skipn_notparam by assumption.
+      symmetry. apply notin_sassoc_none. apply index_of_none. exact Hidx. }
+    rewrite Hopen2. destruct (stack_lookup n s); [discriminate|]. rewrite H. reflexivity.
+Qed.
+
+Theorem required_rejected : forall sg s pos kw n,
+  sig_wf sg -> spec_value sg s pos kw n = Some DRequired -> resolve sg s pos kw = None.
+Proof.
+  intros sg s pos kw n Hwf H. unfold resolve.
+  rewrite (required_found _ n (spec_required_new_kwargs _ _ _ _ _ Hwf H)). reflexivity.
+Qed.
+
+Lemma call_rejects : forall fuel c cls m s pos kw sg,
+  find_sig cls m = Some sg -> resolve sg s pos kw = None ->
+  call (S fuel) c cls m s pos kw = ([], Some TypeErr).
+Proof. intros. simpl. rewrite H, H0. reflexivity. Qed.
+
+Theorem required_rejected_before_send : forall fuel c cls m s pos kw sg n,
+  sig_wf sg -> find_sig cls m = Some sg ->
+  spec_value sg s pos kw n = Some DRequired ->
+  call (S fuel) c cls m s pos kw = ([], Some TypeErr).
+Proof.
+  intros. eapply call_rejects; eauto. eapply required_rejected; eauto.
+Qed.
+
+(* ------------------------------------------------------------------ the generated signatures *)
+Fixpoint nodupb (l : list string) : bool :=
+  match l with
+  | [] => true
+  | k :: r => negb (name_in k r) && nodupb r
+  end.
+
+Lemma nodupb_sound : forall l, nodupb l = true -> NoDup l.
+Proof.
+  induction l as [|k r IH]; simpl; intros H; [constructor|].
+  apply andb_true_iff in H. destruct H as [H1 H2]. constructor; [|auto].
+  intros Hin. apply name_in_iff in Hin. rewrite Hin in H1. discriminate.
+Qed.
+
+Lemma all_signatures_wf : Forall sig_wf all_signatures.
+Proof.
+  apply Forall_forall. intros sg Hin. apply nodupb_sound.
+  assert (G : forallb (fun sg => nodupb (map fst (sg_params sg))) all_signatures = true)
+    by (vm_compute; reflexivity).
+  rewrite forallb_forall in G. apply G. exact Hin.
+Qed.
+
+Lemma find_sig_in_list : forall l cls m sg, find_sig_in l cls m = Some sg -> In sg l /\ sg_cls sg = cls /\ sg_name sg = m.
+Proof.
+  induction l as [|a r IH]; simpl; intros cls m sg H; [discriminate|].
+  destruct (String.eqb cls (sg_cls a) && String.eqb m (sg_name a)) eqn:E.
+  - inversion H; subst. apply andb_true_iff in E. destruct E as [E1 E2].
+    apply String.eqb_eq in E1. apply String.eqb_eq in E2. auto.
+  - destruct (IH _ _ _ H) as [H1 H2]. auto.
+Qed.
+
+Lemma find_sig_wf : forall cls m sg, find_sig cls m = Some sg -> sig_wf sg.
+Proof.
+  intros cls m sg H. apply find_sig_in_list in H. destruct H as [H _].
+  pose proof all_signatures_wf as G. rewrite Forall_forall in G. auto.
+Qed.
 
 Lemma every_signature_has_a_body :
   forallb (fun sg => match body_of (sg_cls sg) (sg_name sg) with Some _ => true | None => false end)
